@@ -164,6 +164,39 @@ def parse_enums(src, feats):
             variants.append((vname, kind, fields, extra))
         if variants:
             out.setdefault(name, variants)
+    # convert_enum!(From, Arg, { A, #[cfg(..)] B, })   (src/cli/opt.rs)
+    for m in re.finditer(r"convert_enum!\(\s*([A-Za-z_]\w*)\s*,\s*([A-Za-z_]\w*)\s*,\s*\{", src):
+        body, _ = _body(src, m.end() - 1)
+        vs = []
+        for item in _split(body):
+            item = item.strip()
+            keep = True
+            while item.startswith("#["):
+                d = 0
+                for j in range(1, len(item)):
+                    if item[j] == "[": d += 1
+                    elif item[j] == "]":
+                        d -= 1
+                        if d == 0: break
+                cm = re.match(r"cfg\((.*)\)$", item[2:j].strip(), flags=re.S)
+                if cm:
+                    keep = keep and eval_cfg(cm.group(1), feats)
+                item = item[j + 1:].strip()
+            if item and keep and re.fullmatch(r"[A-Za-z_]\w*", item):
+                vs.append((item, "unit", [], None))
+        if vs:
+            out.setdefault(m.group(2), vs)
+    # property_choice! { Name, "key"; (Variant, "string"), ... }   and   property_valued! {Name, "key", type; (Variant, "string")}
+    for m in re.finditer(r"property_choice!\s*\{\s*([A-Za-z_]\w*)\s*,\s*(\x00\d+\x00)\s*;", src):
+        body, _ = _body(src, src.index("{", m.start()))
+        vs = [(v.group(1), "unit", [], _unmask(v.group(2)).strip('"')) for v in re.finditer(r"\(\s*([A-Za-z_]\w*)\s*,\s*(\x00\d+\x00)\s*\)", body)]
+        if vs:
+            out.setdefault(m.group(1), vs)
+    for m in re.finditer(r"property_valued!\s*\{\s*([A-Za-z_]\w*)\s*,\s*(\x00\d+\x00)\s*,\s*([A-Za-z_]\w*)\s*;", src):
+        body, _ = _body(src, src.index("{", m.start()))
+        vs = [("Value", "tuple", [("0", m.group(3))], None)]
+        vs += [(v.group(1), "unit", [], _unmask(v.group(2)).strip('"')) for v in re.finditer(r"\(\s*([A-Za-z_]\w*)\s*,\s*(\x00\d+\x00)\s*\)", body)]
+        out.setdefault(m.group(1), vs)
     # full_moon macros
     mb = re.search(r"make_bin_op!\(\s*(?:#\[[^\]]*\]\s*)*\{", src)
     if mb:
@@ -240,6 +273,10 @@ class EnumTable:
                 self.fm.setdefault(k, v)
         for k, v in self.fm.items():
             self.enums.setdefault(k, v)
+        ec = sorted(glob.glob(os.path.expanduser("~/.cargo/registry/src/*/ec4rs-1.0.2/src/property.rs")))
+        for p in ec:
+            for k, v in parse_enums(open(p).read(), set()).items():
+                self.enums.setdefault(k, v)
         # std enums that appear as symbolic values
         self.enums.setdefault("Option", [("None", "unit", [], None), ("Some", "tuple", [("0", "T")], None)])
         self.enums.setdefault("Result", [("Ok", "tuple", [("0", "T")], None), ("Err", "tuple", [("0", "E")], None)])
